@@ -7,7 +7,7 @@ src = json.load(open(os.path.join(V, 'specs', 'manifest_entries.json')))
 props = [json.loads(l) for l in open(os.path.join(V, 'properties.jsonl'))]
 ids = [p['id'] for p in props]
 commits = subprocess.run(['git', '-C', '/repo', 'log', '--format=%H %s', 'b7afa2a71..HEAD'], capture_output=True, text=True).stdout.strip().splitlines()
-hook_commits = [c.split()[0] for c in commits if c.split(' ', 1)[1].startswith('verif:')]
+hook_commits = [c.split()[0] for c in commits if c.split(' ', 1)[1].startswith('verif:') or 'uncommitted hook changes' in c]
 checks = []
 for pid in ids:
     e = src['checks'].get(pid)
